@@ -27,6 +27,8 @@ impl ProcfsHandle {
 pub fn global_procfs_handle() -> (r: &'static ProcfsHandle) { unimplemented!() }
 pub mod utils {
     use super::*;
+//@frozen src/utils/sysctl.rs :: fn sysctl_read_parse
+//@frozen src/utils/sysctl.rs :: fn sysctl_read_line
     /// utils/sysctl.rs sysctl_read_parse: open + read + parse of /proc/sys/...; each step may fail (A9)
     #[verifier::external_body]
     pub fn sysctl_read_parse(procfs: &ProcfsHandle, sysctl: &str) -> (r: Result<u32, Error>) { unimplemented!() }
